@@ -764,11 +764,23 @@ func verifyProvenance(p *Prog, r *Report, rule string, which []string) {
 				dependsOn(a[3], func(x ssa.Value) bool { fv, _ := fieldOf(x); return fv != nil && refName(fv) == spec.sigField })
 			// every possibly-true return derives from this keys.Verify
 			okRet := true
+			qVerified := func(l Lit) bool {
+				return l.Pos && !l.Nil && unwrap(l.V) == c.Value()
+			}
 			for _, rp := range p.succRets(spec.fn, boolTrue, 0) {
-				v := rp.ret.Results[0]
-				if !dependsOn(v, func(x ssa.Value) bool { return x == c.Value() }) {
-					okRet = false
+				v := rp.val
+				if v == nil {
+					v = rp.ret.Results[0]
 				}
+				// the value returned IS the ECDSA verdict on every path (not merely one of the values
+				// a variable may hold), or the return is reached only after that verdict was true
+				if mustBeValue(v, c.Value(), 0) {
+					continue
+				}
+				if g, _ := p.holdsAtRet(rp, []Pred{qVerified}, all(1)); g {
+					continue
+				}
+				okRet = false
 			}
 			r.Check(okKey && okHash && okSig && okRet, rule, spec.name+":keys.Verify-provenance", p.ipos(c), fnName(spec.fn),
 				"key from "+spec.keyField+", digest from Body.Hash(), r,s from Signature; true only via keys.Verify",
